@@ -4,6 +4,8 @@ open GqlgenVerif GqlgenVerif.Http GqlgenVerif.HttpHist GqlgenVerif.Gen.HttpStatu
 /-! Line protocol driver for C09.
 
     c   <srv> <method> <up> <rct> <accept> <dec> <param> <doc> <opName> <vars> <exec>   → `<status> <ct> <body> <exec>`
+        param = `0` | `nocode` | `<code>` (APQ refuses) | `ctx:nocode` | `ctx:<code>` (an OperationContextMutator refuses)
+        doc   = `P` (syntax error) | `PL` (plain parser error: token limit) | `I` | `V<ops>`
     chk <the same 11 tokens> <status> <ct> <body> <exec>                                 → `ok` | violated clauses
     st  <codes>                                                                          → `<statusFor> <statusForGraphQLResponse>`
     ct  <explicit> <accept>                                                              → `<determineCT> <Spec.negotiate>`
@@ -59,14 +61,22 @@ def parseOp (s : String) : Option Op :=
   | _ => none
 
 def parseDoc (s : String) : Option Doc :=
-  if s = "P" then some .parseErr
+  if s = "P" || s = "PL" then some .parseErr      -- PL: the parser failed with a plain error (token limit)
   else if s = "I" then some .invalid
   else if s = "V" then some (.ops [])
   else if s.startsWith "V" then ((s.drop 1).toString.splitOn ":").mapM parseOp |>.map Doc.ops
   else none
 
+def parseCode (s : String) : Option (Option String) :=
+  if s = "nocode" then some none else some (some s)
+
+/-- `0` | `nocode` | `<code>`: a parameter mutator (APQ) refuses; `ctx:nocode` | `ctx:<code>`: an operation-context
+    mutator refuses -/
 def parseParam (s : String) : Option (Option String) :=
-  if s = "0" then none else if s = "nocode" then some none else some (some s)
+  if s = "0" || s.startsWith "ctx:" then none else parseCode s
+
+def parseCtx (s : String) : Option (Option String) :=
+  if s.startsWith "ctx:" then parseCode (s.drop 4).toString else none
 
 def parseReq (t : List String) : Option (List Transport × Req) :=
   match t with
@@ -75,10 +85,10 @@ def parseReq (t : List String) : Option (List Transport × Req) :=
     let m ← parseMethod m
     let rct ← parseRct rct
     let dec ← parseDec dec
-    let doc ← parseDoc doc
+    let d ← parseDoc doc
     pure (srv, { method := m, upgrade := up = "1", rct := rct, accept := parseAccept acc, dec := dec,
-                 paramErr := parseParam param, doc := doc, opName := if opn = "~" then "" else opn,
-                 varsOk := vars = "1", execErr := ex = "err" })
+                 paramErr := parseParam param, doc := d, opName := if opn = "~" then "" else opn,
+                 varsOk := vars = "1", execErr := ex = "err", parsePlain := doc = "PL", ctxErr := parseCtx param })
   | _ => none
 
 def showOp (o : Op) : String :=
@@ -105,7 +115,7 @@ def parseWorldEntry (s : String) : Option (Nat × Option (List Op) × Bool) :=
   match s.splitOn "=" with
   | [id, d] => do
     let id ← id.toNat?
-    if d = "P" then pure (id, none, false)
+    if d = "P" || d = "PL" then pure (id, none, false)
     else
       let valid := d.startsWith "V"
       let rest := (d.drop 1).toString
